@@ -64,9 +64,7 @@ fn main() {
     match build_file(opt.source.clone(), btreeset! { get_standard_includes() }) {
         Ok(built) => {
             // one file cannot hold both images
-            let same_file = !built.code.is_empty()
-                && !built.eeprom.is_empty()
-                && same_output(&code_path, &eeprom_path);
+            let same_file = !built.eeprom.is_empty() && same_output(&code_path, &eeprom_path);
             if same_file {
                 failed = true;
                 println!(
@@ -75,9 +73,9 @@ fn main() {
                     code_path.to_string_lossy()
                 );
             }
-            // write to file code
-            if same_file {
-            } else if !built.code.is_empty() {
+            // write to file code, also when the image is empty: a file left over from an earlier
+            // build must not pass for the result of this one
+            if !same_file {
                 match write_code_hex(code_path.clone(), &built) {
                     Ok(()) => {}
                     Err(e) => {
@@ -88,15 +86,10 @@ fn main() {
                         )
                     }
                 }
-            } else {
-                println!("Nothing to write of code for file {}", file_name);
             }
             // write to file eeprom
             if same_file {
-            } else if !built.code.is_empty()
-                && !built.eeprom.is_empty()
-                && same_output(&code_path, &eeprom_path)
-            {
+            } else if !built.eeprom.is_empty() && same_output(&code_path, &eeprom_path) {
                 // (a link to the flash file that could only be resolved now that the file exists)
                 failed = true;
                 println!(
